@@ -114,6 +114,15 @@ pub fn gen(seed: u64, n: usize) -> Result<Vec<Value>> {
 			let dj = files[j]["diff"].clone();
 			files[i]["diff"] = dj;
 		}
+		// a back edge: a cycle, reachable from the root or not, possibly entered at several places
+		if nv >= 3 && r.gen_bool(0.2) {
+			let from = r.gen_range(1..nv);
+			let to = r.gen_range(0..from);
+			let name = format!("{}#{}.tinydiff", names[from], names[to]);
+			if !files.iter().any(|f| f["name"] == name.as_str()) {
+				files.push(json!({"name": name, "diff": {"info": ["none"], "doc": ["none"], "kids": {}}}));
+			}
+		}
 		if r.gen_bool(0.1) { files.push(json!({"name": "notes.txt"})); }
 		files.shuffle(&mut r);
 		let mut lookups: Vec<String> = names.iter().flat_map(|x| x.split('~').map(|s| s.to_owned()).collect::<Vec<_>>()).collect();
